@@ -9,8 +9,8 @@ namespace Hive
 
 /-- one phase of the simulation, for arbitrary inputs -/
 inductive Phase (env : Env) : Sim → Sim → Prop where
-  | instructions {s : Sim} {log : List Event} {is : List Instr} {w' : World} :
-      (is.map Instr.vehicle).Nodup → applyInstructions env ⟨s, log⟩ is = some w' → Phase env s w'.sim
+  | instructions {s : Sim} {log : List Event} {is : List Instr} :
+      (is.map Instr.vehicle).Nodup → Phase env s (applyInstructions env ⟨s, log⟩ is).sim
   | updates {s : Sim} {log : List Event} : Phase env s (vehicleUpdates env ⟨s, log⟩).sim
   | tick {s : Sim} : Phase env s s.tick
   | arrival {s s' : Sim} {r : Request} :
@@ -99,7 +99,7 @@ theorem addRequest_wf {env : Env} {s s' : Sim} {r : Request} (hwf : s.WF) (hfres
 theorem phase_wf {env : Env} {s s' : Sim} (hwf : s.WF) (h : Phase env s s') : s'.WF := by
   have hTrue : StepInv env (fun _ => True) := ⟨fun _ _ _ => trivial, fun _ _ _ _ _ => trivial, fun _ _ _ _ => trivial⟩
   cases h with
-  | instructions hn h => exact (applyInstructions_inv hTrue hn hwf trivial h).2
+  | instructions hn => exact (applyInstructions_inv hTrue (w := ⟨s, _⟩) hn hwf trivial).2
   | updates => exact (vehicleUpdates_inv hTrue (w := ⟨s, _⟩) hwf trivial).2
   | tick => exact ⟨hwf.veh, hwf.stn, hwf.base, hwf.req, hwf.plugs⟩
   | arrival hf _ _ h => exact addRequest_wf hwf hf h
@@ -118,7 +118,7 @@ theorem reachable_inv {env : Env} {I : Sim → Prop} (hI : RunInv env I) {s0 s :
   | step hr hp ih =>
     have hwf' := reachable_wf hwf hr
     cases hp with
-    | instructions hn h => exact (applyInstructions_inv hI.toStepInv hn hwf' ih h).1
+    | instructions hn => exact (applyInstructions_inv hI.toStepInv (w := ⟨_, _⟩) hn hwf' ih).1
     | updates => exact (vehicleUpdates_inv hI.toStepInv (w := ⟨_, _⟩) hwf' ih).1
     | tick => exact hI.tick _ ih
     | arrival hf hu hd h => exact hI.arrival hwf' ih hf hu hd h
